@@ -131,8 +131,14 @@ class IncrementalCKY:
         """
         c = self._chart.get(prefix)
         if c is None:
-            c = self._compute_chart(prefix)
-            self._chart[prefix] = c
+            # Fill the cache upwards from the longest cached prefix, so that
+            # `_compute_chart` never recurses more than one level (a cold, long
+            # context must not hit the interpreter's recursion limit).
+            k = len(prefix)
+            while k > 0 and prefix[: k - 1] not in self._chart:
+                k -= 1
+            for j in range(k, len(prefix) + 1):
+                self._chart[prefix[:j]] = c = self._compute_chart(prefix[:j])
         return c
 
     def _compute_chart(self, prefix):
